@@ -73,7 +73,27 @@ pub fn gen_case(rng: &mut Rng, idx: usize, thorough: bool) -> Value {
     let g = match idx % 5 {
         0 => eng::gen_grammar(rng, idx / 5 * 3).0.to_json(),
         1 => { let (g, _) = c05::gen_cfg(rng); json!({"lark": g.to_lark()}) }
-        2 | 3 => json!({"json_schema": gen_json(rng, 0)}),
+        2 => {
+            // numeric windows with multipleOf on either side of zero, at the root or inside an object / tuple:
+            // satisfiable by construction (the window holds a multiple), so a dead end is the engine's
+            let mo = ["1", "2", "3", "5", "10", "0.5", "0.25", "1.5", "0.1"][rng.below(9)];
+            let step: f64 = mo.parse().unwrap();
+            let k = rng.range(-12, 12);
+            let k = if rng.chance(1, 2) { -k.abs() - 1 } else { k };
+            let inside = step * k as f64;
+            let lo = inside - step * [0.0, 0.5, 1.0, 2.5][rng.below(4)];
+            let mut hi = inside + step * [0.0, 0.5, 1.0, 2.5][rng.below(4)];
+            if k < 0 && rng.chance(2, 3) { hi = hi.min(inside + step * 0.5); } // window entirely below zero
+            let ty = if step.fract() == 0.0 && rng.chance(1, 2) { "integer" } else { "number" };
+            let num: Value = serde_json::from_str(&format!("{{\"type\":\"{ty}\",\"minimum\":{lo},\"maximum\":{hi},\"multipleOf\":{mo}}}")).unwrap();
+            let sch = match rng.below(3) {
+                0 => num,
+                1 => json!({"type":"object","properties":{"a":num},"required":["a"],"additionalProperties":false}),
+                _ => json!({"type":"array","prefixItems":[{"type":"boolean"}, num],"minItems":2,"maxItems":2,"items":false}),
+            };
+            json!({"json_schema": sch})
+        }
+        3 => json!({"json_schema": gen_json(rng, 0)}),
         _ => { let r = crate::rx::gen_rx(rng, 3); json!({"regex": r.to_regex()}) }
     };
     json!({"grammar": g, "seed": rng.next() % 1_000_000_000, "steps": steps, "walks": walks, "vocab_kind": idx % 3, "budget": if thorough { 6000 } else { 1500 }})
